@@ -1,19 +1,19 @@
 ------------------------------- MODULE Num -------------------------------
 (* Big-number backend of the abstract numeric module, in pure TLA+.           *)
-(* A number is a little-endian sequence of limbs in base B = 10^4, canonical  *)
+(* A number is a little-endian sequence of limbs in base LimbBase = 10^4, canonical  *)
 (* (no most-significant zero limb; zero is << >>).  TLC integers are 32-bit,  *)
 (* chain amounts (loya, ms timestamps, 18-decimal credits, uint64 prices) are *)
 (* not; traces carry amounts as JSON arrays of limbs which ndJsonDeserialize   *)
 (* turns into exactly these sequences.  Same interface as ../num_native.      *)
 EXTENDS Integers, Sequences
-B == 10000
+LimbBase == 10000
 
 RECURSIVE Norm(_)
 Norm(a) == IF a = <<>> THEN a
            ELSE IF a[Len(a)] = 0 THEN Norm(SubSeq(a, 1, Len(a) - 1)) ELSE a
 
 RECURSIVE N(_)
-N(x) == IF x = 0 THEN <<>> ELSE <<x % B>> \o N(x \div B)
+N(x) == IF x = 0 THEN <<>> ELSE <<x % LimbBase>> \o N(x \div LimbBase)
 Zero == <<>>
 One == <<1>>
 IsZero(a) == a = <<>>
@@ -23,7 +23,7 @@ L(a, i) == IF i <= Len(a) THEN a[i] ELSE 0
 RECURSIVE AddC(_, _, _, _)
 AddC(a, b, i, c) ==
   IF i > Len(a) /\ i > Len(b) THEN (IF c = 0 THEN <<>> ELSE <<c>>)
-  ELSE LET s == L(a, i) + L(b, i) + c IN <<s % B>> \o AddC(a, b, i + 1, s \div B)
+  ELSE LET s == L(a, i) + L(b, i) + c IN <<s % LimbBase>> \o AddC(a, b, i + 1, s \div LimbBase)
 a ++ b == AddC(a, b, 1, 0)
 
 \* comparison: -1, 0, 1
@@ -45,7 +45,7 @@ RECURSIVE SubC(_, _, _, _)
 SubC(a, b, i, c) ==
   IF i > Len(a) THEN <<>>
   ELSE LET d == a[i] - L(b, i) - c IN
-       IF d < 0 THEN <<d + B>> \o SubC(a, b, i + 1, 1) ELSE <<d>> \o SubC(a, b, i + 1, 0)
+       IF d < 0 THEN <<d + LimbBase>> \o SubC(a, b, i + 1, 1) ELSE <<d>> \o SubC(a, b, i + 1, 0)
 a -- b == Norm(SubC(a, b, 1, 0))
 Monus(a, b) == IF Cmp(a, b) >= 0 THEN a -- b ELSE <<>>
 AbsDiff(a, b) == IF Cmp(a, b) >= 0 THEN a -- b ELSE b -- a
@@ -56,7 +56,7 @@ NMin(a, b) == IF Cmp(a, b) <= 0 THEN a ELSE b
 RECURSIVE MulL(_, _, _, _)
 MulL(a, d, i, c) ==
   IF i > Len(a) THEN (IF c = 0 THEN <<>> ELSE <<c>>)
-  ELSE LET p == a[i] * d + c IN <<p % B>> \o MulL(a, d, i + 1, p \div B)
+  ELSE LET p == a[i] * d + c IN <<p % LimbBase>> \o MulL(a, d, i + 1, p \div LimbBase)
 RECURSIVE MulFrom(_, _, _)
 MulFrom(a, b, j) ==
   IF j > Len(b) THEN <<>>
